@@ -80,7 +80,7 @@ impl RpslEvaluator {
 }
 //@item file=junos-agent/src/policies/mod.rs kind=struct name=Candidate sub=/pub(crate) =>pub /
 impl Candidate {
-//@extract id=candidate_evaluate file=junos-agent/src/policies/eval.rs impl=/impl Evaluate for Candidate/ fn=evaluate rules=R1,R2,R7 r7map=result
+//@extract id=candidate_evaluate file=junos-agent/src/policies/eval.rs impl=/impl Evaluate for Candidate/ fn=evaluate rules=R1,R2,R7,R17 r7map=result
 //@contract
         ensures
             res.filter_expr == self.filter_expr,
